@@ -78,6 +78,24 @@ Theorem C19_refuted_submit_check_inert :
 Proof. exact submit_check_inert_without_limit. Qed.
 Print Assumptions C19_refuted_submit_check_inert.
 
+(* an accepted request is admitted by the dispatcher's guards exactly as the limits say (the
+   regenerated wait-loop tests, Gen.SharedRes): a worker limit counts calls, never cores or
+   threads, so every request passes it once fewer than max_workers calls are active; a core
+   limit compares the sum of the active slots plus the request *)
+From EL Require Proofs.C10Proofs Gen.SharedRes.
+Theorem C19_worker_limit_counts_calls :
+  forall (act : list (pyval * pyval)) m,
+    SharedRes.wait_guard_workers (VDict act) (VInt m) = Ok (VBool (Z.gtb (Z.of_nat (List.length act) + 1) m)).
+Proof. exact C10Proofs.guard_workers. Qed.
+Print Assumptions C19_worker_limit_counts_calls.
+
+Theorem C19_core_limit_sums_slots :
+  forall (act : list (pyval * Z)) r m,
+    SharedRes.wait_guard_cores (VDict (List.map (fun p => (fst p, VInt (snd p))) act)) (VInt r) (VInt m)
+    = Ok (VBool (Z.gtb (List.fold_right (fun p acc => (snd p + acc)%Z) 0%Z act + r) m)).
+Proof. exact C10Proofs.guard_cores. Qed.
+Print Assumptions C19_core_limit_sums_slots.
+
 (* ---- REFUTED on the code as it is: witnesses by computation on the executable models
    (Proofs/Refute.v); each is a recorded finding (KNOWN_FINDINGS.txt) ---- *)
 From EL Require Model.Exec Model.ExecInv Model.StepExec Model.FileExec Model.FileSpec Model.CacheExec Proofs.FileSafe Proofs.FileRefute Proofs.CacheSafe Proofs.Refute.
